@@ -32,12 +32,15 @@
       C03 observation = (status rowcount (block ...) tblidx (blkidx ...) nidx diag)
          tblidx node of keys; blkidx = node of (key crow) per position; nidx = number of
          block indices; diag = 0 (no issue) or the issue code 1..6
-      C02 case = (columns pknames (variant ...) (mutant ...))
+      C02 case = (columns pknames (variant ...) (mutant ...) cli)
          variant = (rows runSize arrival goparams) -- the same logical table, permuted
          mutant  = (columns pknames rows)          -- differs in one cell / name / order / key
-      C02 observation = (status (block ...) (same ...) (differs ...))
-         blocks of variant 0; same_i = table of variant i equals that of variant 0;
-         differs_j = table of mutant j differs from variant 0 (2 = mutant refused). *)
+         cli     = 1: also drive commitIfBranchFileHasChanged four times (see harness/c02.go)
+      C02 observation = (status (block ...) (same ...) (differs ...) (cli ...))
+         blocks of variant 0; same_i = table of variant i+1 equals that of variant 0;
+         differs_j = table of mutant j differs from variant 0 (2 = mutant refused);
+         cli = () or the four decisions "a commit is created" for: first commit, unchanged
+         file, file rewritten with variant 1, file rewritten with mutant 0. *)
 From W.lib Require Import Tree Bytes GoSort.
 From W.model Require Import Sorter.
 From Coq Require Import Arith.
@@ -317,11 +320,28 @@ Definition run_C02 (c : tree) : tree :=
   let mutant (m : tree) :=
     fst (ingest_table no_hash isort_rows (fun l => l) 4096
                       (d_list d_bytes (d_nth 0 m)) (d_list d_bytes (d_nth 1 m)) (d_list d_row (d_nth 2 m))) in
-  match map variant (d_list (fun t => t) (d_nth 2 c)) with
+  let vs := map variant (d_list (fun t => t) (d_nth 2 c)) in
+  let ms := map mutant (d_list (fun t => t) (d_nth 3 c)) in
+  match vs with
   | IOk T0 _ :: rest =>
+      (* identifiers: the position of the first equal table among the tables seen *)
+      let id_of (T : table) (known : list table) : N :=
+        (fix go (l : list table) (i : N) : N :=
+           match l with [] => i | K :: l' => if table_eqb K T then i else go l' (i + 1) end) known 0 in
+      let cli :=
+        match d_nat (d_nth 4 c), rest, ms with
+        | 1%nat, IOk T1 _ :: _, IOk M0 _ :: _ =>
+            let known := [T0; T1; M0] in
+            let i0 := id_of T0 known in
+            [t_bool (commit_if_changed None i0);
+             t_bool (commit_if_changed (Some i0) (id_of T0 known));
+             t_bool (commit_if_changed (Some i0) (id_of T1 known));
+             t_bool (commit_if_changed (Some i0) (id_of M0 known))]
+        | _, _, _ => []
+        end in
       Node [Leaf 0; t_blocks_tree t_row T0;
             t_list (fun r => match r with IOk T _ => t_bool (table_eqb T0 T) | _ => Leaf 2 end) rest;
-            t_list (fun m => match mutant m with IOk T _ => t_bool (negb (table_eqb T0 T)) | _ => Leaf 2 end)
-                   (d_list (fun t => t) (d_nth 3 c))]
-  | _ => Node [Leaf 1; Node []; Node []; Node []]
+            t_list (fun r => match r with IOk T _ => t_bool (negb (table_eqb T0 T)) | _ => Leaf 2 end) ms;
+            Node cli]
+  | _ => Node [Leaf 1; Node []; Node []; Node []; Node []]
   end.
